@@ -107,7 +107,10 @@ def get_options_and_frames(
         # Input may not be seekable (e.g. a network stream) -- then we need to buffer
         # it to determine if it's delimited.
         # See also: https://github.com/Jelly-RDF/pyjelly/issues/298
-        inp = io.BufferedReader(inp)  # type: ignore[arg-type, type-var, unused-ignore]
+        # An input that is buffered already (e.g. `socket.makefile("rb")`) must not be
+        # wrapped again: the outer buffer would wait for the inner one to fill up.
+        if not isinstance(inp, io.BufferedIOBase):
+            inp = io.BufferedReader(inp)  # type: ignore[arg-type, type-var, unused-ignore]
         # `peek()` may return fewer than 3 bytes even though more are coming, so read
         # the header for real and put it back in front of the stream.
         header = _PushbackReader(b"", inp).read(3)
